@@ -115,6 +115,10 @@ func (g *c18gen) content() (data []byte, seed uint64, size int) {
 		size = 2 + r.Intn(60)
 	case k < 85:
 		size = 1000 + r.Intn(4000)
+	case k < 89:
+		// section (CID + data) of 127/128, 4095/4096, 8191/8192, 16383/16384, 65535/65536 bytes +-2
+		size = pick(r, c18SectionSizes)
+		g.feat["section-boundary-file"] = true
 	case k < 93:
 		size = pick(r, []int{262143, 262144, 262145})
 		g.feat["chunk-boundary-file"] = true
@@ -239,6 +243,50 @@ func (g *c18gen) emitTree(t *stree, p VL, fs *VL) Val {
 		}
 		return VL{VT("d"), out}
 	}
+}
+
+// single-chunk file sizes whose CAR section (36-byte CID + data) straddles a length-varint width
+// boundary (128, 16384) or a power of two a writer might buffer by (4096, 8192, 65536)
+var c18SectionSizes = func() []int {
+	var out []int
+	for _, b := range []int{128, 4096, 8192, 16384, 65536} {
+		for d := -2; d <= 2; d++ {
+			out = append(out, b-36+d)
+		}
+	}
+	return out
+}()
+
+// padDirTo builds a directory of small files whose dag-pb node (as car create's builder encodes it)
+// is exactly target bytes long
+func padDirTo(c *Ctx, target int) *stree {
+	t := &stree{kind: 'd'}
+	name := func(i, n int) []byte {
+		return append([]byte{'p', byte('a' + i%26), byte('a' + i/26%26)}, bytes.Repeat([]byte("x"), n)...)
+	}
+	for i := 0; ; i++ {
+		t.ents = append(t.ents, sent{name(i, 197), &stree{kind: 'f', data: []byte{byte(i), 'z'}}})
+		if n := len(rootBlockOf(c, t)); n > target-300 {
+			break
+		}
+	}
+	last := len(t.ents) - 1
+	t.ents[last].name = name(last, 0)
+	for k := 0; k < 6; k++ {
+		n := len(rootBlockOf(c, t))
+		if n == target {
+			return t
+		}
+		l := len(t.ents[last].name) - 3 + (target - n)
+		if l < 0 || l > 250 {
+			// spread over one more entry
+			t.ents = append(t.ents, sent{name(last+1, 0), &stree{kind: 'f', data: []byte{byte(last + 1), 'y'}}})
+			last++
+			continue
+		}
+		t.ents[last].name = name(last, l)
+	}
+	return t
 }
 
 // spellings of the source argument "src/<top>" of `car create`; the wrapping entry is named
@@ -480,6 +528,27 @@ func init() {
 					g.nodes = n
 					c18Case(c, g, []byte("coll"), t, version, mode == 1, mode, false, false, "directed:same-multihash-across-codecs")
 				}
+			}
+		}
+		// ---- sections on varint-width and power-of-two boundaries: single-chunk files whose CID+data is
+		// 126..130, 4094..4098, 8190..8194, 16382..16386, 65534..65538 bytes, and directories whose
+		// dag-pb node is exactly 4059 / 4060 bytes (section 4095 / 4096)
+		pd4059, pd4060 := padDirTo(c, 4059), padDirTo(c, 4060)
+		if len(rootBlockOf(c, pd4059)) == 4059 && len(rootBlockOf(c, pd4060)) == 4060 {
+			c.Count("directory-node-of-4059-and-4060-bytes")
+		}
+		for _, version := range []uint64{1, 2} {
+			for _, mode := range []uint64{0, 2} {
+				g := &c18gen{r: r.Fork(), c: c, feat: map[string]bool{"section-boundary-file": true}, maxDep: 3}
+				t := &stree{kind: 'd'}
+				for _, sz := range c18SectionSizes {
+					f := &stree{kind: 'f', seed: g.r.U64() | 1, size: sz}
+					f.data = contentOf(f.seed, sz, 0, 0, nil)
+					t.ents = append(t.ents, sent{[]byte("f" + itoa(sz)), f})
+				}
+				t.ents = append(t.ents, sent{[]byte("dir-node-4059"), pd4059}, sent{[]byte("dir-node-4060"), pd4060})
+				g.nodes = len(t.ents) + 40
+				c18Case(c, g, []byte("sections"), t, version, mode == 2, mode, false, false, "directed:section-boundaries")
 			}
 		}
 		// ---- zero-filled 32 KiB blocks: all-zero files and files ending in whole blocks of zeros must
